@@ -392,6 +392,9 @@ func checkEnvWalk(p *Prog, l *Ledger, which string, fn *ssa.Function) {
 			if ev.Op == "mapstore" {
 				return "!a binding is created/updated in a scope that does not hold the name (" + ev.String() + ")"
 			}
+			if ev.Op == "backedge" {
+				return s // the walk written as a loop (or as a helper calling itself last): the test of the parent follows
+			}
 			return "!after a miss the enclosing scope must be tested next, found " + ev.String()
 		case "up":
 			switch ev.Op {
